@@ -77,6 +77,16 @@ The translator never guesses: every construct outside the supported subset abort
                ValueError when absent), `hash(obj)` of an object of a translated class (the group's "object_hash" applied to
                its translated `__hash__`), `==` / `!=` on declared identity-compared objects ("eq_only"), helper
                alternatives chosen by argument types ("ignore" / "require"), "noop" helpers.
+  text         (builder T4; only in a group that declares "text": {"str": <type>, "chr": <type>}) a str value is the list of its
+               characters: string literals, class-level str constants (one character long: a character), `s[i]` (the declared
+               "getitem": a character), slices `s[a:b]` / `s[a:]` / `s[:b]` (no step), `+`, `==`, `!=`, `len`, comparison of a
+               character with a one-character literal (`"0" <= c <= "9"`), `c.isdigit()`, `int(c)`, `str(<int>)`; f-strings of ONE
+               field over an int with the specification `0N`, `0Nd` (literal N >= 1), `0{n}d` or `0>{n}` — any other f-string is
+               UNSUPPORTED; `int(a * math.pow(10.0, k))` with ints a, k as `Pyoda.Gen.pyIntMulPow10` (the exact integer where the
+               double computation is exact, the out-of-domain error elsewhere) — every other float expression is UNSUPPORTED;
+               `buffer[i]` and `buffer.attr = v` / `buffer.attr -= v` on the state object handed in as a parameter (helpers
+               "<param>.__getitem__", "<param>.<attr>.setter"); `break` in a `while` / `for … in range` loop ("loop_break": true).
+               What these mean is lean/PyodaGen/TextSupport.lean, compared with CPython by the self-test (`text_selftest`).
   names        Python identifiers are kept verbatim («quoted» when Lean reserves them); names invented by the
                translator contain `'`; a generated definition whose name a Python local would shadow is referred
                to by its fully qualified name.
@@ -1594,6 +1604,16 @@ class FnTranslator:
             if isinstance(st, _LoopContinue):
                 out.extend(self.loop_continue(st, ctx))
                 return out
+            if isinstance(st, ast.Break) and getattr(self, "in_loop", False) and self.g.cfg.get("loop_break") and self.cur_loop.get("kind") != "forlist":
+                # (T4) leave the loop: what the loop function returns when its test fails, with the values at this point
+                lp = self.cur_loop
+                for v, ty in lp["carried"]:
+                    if ctx.vars.get(v) != ty:
+                        self.bad(st, f"loop variable {v} changes its type inside the loop")
+                names_ = [lname(v) for v, _ in lp["carried"]]
+                tup_ = names_[0] if len(names_) == 1 else "(" + ", ".join(names_) + ")"
+                out.append(("ret", f"(none, {tup_})" if lp["early"] else tup_, lp["type"]))
+                return out
             if isinstance(st, ast.For) and not self.is_range_for(st):
                 out.extend(self.for_over_list(st, ctx))
                 i += 1
@@ -1649,6 +1669,8 @@ class FnTranslator:
             if isinstance(n, ast.Return):
                 early = True  # the loop function then also reports whether (and what) the body returned
                 continue
+            if isinstance(n, ast.Break) and self.g.cfg.get("loop_break"):
+                continue   # (T4) `break`: the loop function stops with the current values of the carried variables
             if isinstance(n, (ast.Break, ast.Continue, ast.While, ast.For)) and n is not st:
                 self.bad(n, f"{type(n).__name__} inside a while loop")
             if isinstance(n, ast.Lambda) and early:
@@ -2504,6 +2526,16 @@ class FnTranslator:
             sf = self.ms_field(target, ctx)
             if sf is not None:
                 return self.state_assign(st, target, sf, value, ctx)
+            ms_py_ = (self.t.mstate or {}).get("py_param")
+            if isinstance(target, ast.Attribute) and ms_py_ is not None and isinstance(target.value, ast.Name) and target.value.id == ms_py_ \
+                    and ctx.vars.get(ms_py_) == "Erased" and f"{ms_py_}.{target.attr}.setter" in self.g.helpers:
+                # (T4) `buffer.length = v` / `buffer.length -= 1` on the state object handed in as a parameter: the declared property
+                # setter (a state helper); for the augmented form the getter is evaluated first, as Python does
+                v, vty = self.expr(value, ctx, pre)
+                kind, txt, ty = self.helper_call(st, self.g.helpers[f"{ms_py_}.{target.attr}.setter"], [(v, vty)], {}, ctx, pre, False, True)
+                if id(st) in self.state_calls:
+                    return pre
+                self.bad(st, "property setter helper that does not change the state")
             self.bad(st, f"assignment to attribute {ast.unparse(target)}")
         st_ = self.t.dstate
         if isinstance(target, ast.Subscript) and st_ and ast.unparse(target.value) == st_["attr"] and not isinstance(st, ast.AugAssign):
@@ -2842,6 +2874,83 @@ class FnTranslator:
     def record_const(self, e, v):
         self.t.consts[ast.unparse(e)] = v
 
+    # ---- (T4) str values as lists of characters -----------------------------------------------------------
+    def text_cfg(self):
+        """the group's "text" entry {"str": <type of a str value>, "chr": <type of the one-character result of s[i]>}, else None
+        (then string literals are what they always were: erased message arguments)"""
+        return self.g.cfg.get("text")
+
+    @staticmethod
+    def char_literal(c: str) -> str:
+        if 32 <= ord(c) < 127 and c not in "'\\":
+            return f"'{c}'"
+        return f"(Char.ofNat {ord(c)})"
+
+    def text_literal(self, v: str) -> str:
+        return "([" + ", ".join(self.char_literal(c) for c in v) + "] : List Char)"
+
+    def text_const_of(self, e):
+        """(T4) `self.NAME` / `cls.NAME` where NAME is a class-level str constant (`_NUL: str = "\\x00"`), never assigned to
+        elsewhere in its class: a one-character constant is a character (the type of `s[i]`), any other a str value"""
+        if self.text_cfg() is None or self.cls_node is None:
+            return None
+        m = self.g.src.class_member(self.cls_rel, self.cls_node, e.attr)
+        if not m or m[0] != "assign" or not (isinstance(m[3], ast.Constant) and isinstance(m[3].value, str)):
+            return None
+        for n in ast.walk(m[2]):
+            if isinstance(n, ast.Attribute) and n.attr == e.attr and isinstance(n.ctx, (ast.Store, ast.Del)):
+                return None
+        v = m[3].value
+        tc = self.text_cfg()
+        if len(v) == 1:
+            return self.char_literal(v), tc["chr"]
+        return self.text_literal(v), tc["str"]
+
+    def fstring(self, e: ast.JoinedStr, ctx: Ctx, pre: list, cond):
+        """f-strings of exactly one replacement field over an int, with one of the format specifications
+             f"{v:0N}" / f"{v:0Nd}"   (N a literal width ≥ 1)  -> Pyoda.Gen.pyZeroPad v N            (cannot raise)
+             f"{v:0{n}d}"             (n an int expression)     -> Pyoda.Gen.pyFmtZeroPad v n          (ValueError for n < 0)
+             f"{v:0>{n}}"             (n an int expression)     -> Pyoda.Gen.pyFmtFillRight v n
+           everything else (literal text around the field, conversions, other specifications, non-int values) is refused."""
+        tc = self.text_cfg()
+        if len(e.values) != 1 or not isinstance(e.values[0], ast.FormattedValue):
+            self.bad(e, "f-string that is not a single replacement field")
+        fv = e.values[0]
+        if fv.conversion != -1 or fv.format_spec is None:
+            self.bad(e, "f-string field with a conversion / without a format specification")
+        parts = fv.format_spec.values
+        shape = []
+        for p_ in parts:
+            if isinstance(p_, ast.Constant) and isinstance(p_.value, str):
+                if p_.value != "":
+                    shape.append(p_.value)
+            elif isinstance(p_, ast.FormattedValue) and p_.conversion == -1 and p_.format_spec is None:
+                shape.append(p_)
+            else:
+                self.bad(e, "format specification with a nested conversion / specification")
+        v, tv = self.expr(fv.value, ctx, pre, cond)
+        if tv != "Int":
+            self.bad(e, f"f-string field of type {tv} (only ints are formatted)")
+        if len(shape) == 1 and isinstance(shape[0], str):
+            sp = shape[0]
+            body = sp[:-1] if sp.endswith("d") else sp
+            if len(body) >= 2 and body[0] == "0" and body[1:].isdigit() and body[1] != "0" and body.isascii() and int(body[1:]) <= 2147483647:
+                return f"(Pyoda.Gen.pyZeroPad {self.paren(v)} {int(body[1:])})", tc["str"]
+            self.bad(e, f"format specification {sp!r} (only 0N / 0Nd with a literal width)")
+        if len(shape) == 3 and shape[0] == "0" and shape[2] == "d" and not isinstance(shape[1], str):
+            n, tn = self.expr(shape[1].value, ctx, pre, cond)
+            if tn != "Int":
+                self.bad(e, "format width that is not an int")
+            r = self.deliver(e, f"Pyoda.Gen.pyFmtZeroPad {self.paren(v)} {self.paren(n)}", tc["str"], True, pre, cond, False)
+            return r[1], r[2]
+        if len(shape) == 2 and shape[0] == "0>" and not isinstance(shape[1], str):
+            n, tn = self.expr(shape[1].value, ctx, pre, cond)
+            if tn != "Int":
+                self.bad(e, "format width that is not an int")
+            r = self.deliver(e, f"Pyoda.Gen.pyFmtFillRight {self.paren(v)} {self.paren(n)}", tc["str"], True, pre, cond, False)
+            return r[1], r[2]
+        self.bad(e, "format specification that is not one of 0N, 0Nd, 0{n}d, 0>{n}")
+
     def expr(self, e, ctx: Ctx, pre: list, cond=False):
         """-> (lean text, type).  `cond`: inside a conditionally evaluated position (no hoisting allowed)."""
         g = self.g
@@ -2854,7 +2963,11 @@ class FnTranslator:
                 return ("true" if e.value else "false"), "Bool"
             if isinstance(e.value, int):
                 return self.lit(e.value), "Int"
+            if isinstance(e.value, str) and self.text_cfg() is not None:
+                return self.text_literal(e.value), self.text_cfg()["str"]   # (T4) a str value: the list of its characters
             self.bad(e, f"literal {e.value!r}")
+        if isinstance(e, ast.JoinedStr) and self.text_cfg() is not None:
+            return self.fstring(e, ctx, pre, cond)
         if isinstance(e, ast.NamedExpr):
             if cond:
                 self.bad(e, "walrus in a conditionally evaluated position")
@@ -2957,7 +3070,33 @@ class FnTranslator:
     def subscript(self, e: ast.Subscript, ctx, pre, cond):
         """constant int table indexed by an int expression -> bounds-checked lookup (raises IndexError)."""
         vt = None
-        if isinstance(e.value, (ast.Name, ast.Attribute)):
+        ms_py_ = (self.t.mstate or {}).get("py_param")
+        if ms_py_ is not None and isinstance(e.value, ast.Name) and e.value.id == ms_py_ and ctx.vars.get(ms_py_) == "Erased" \
+                and not isinstance(e.slice, ast.Slice) and f"{ms_py_}.__getitem__" in self.g.helpers:
+            # (T4) `buffer[i]` on the state object handed in as a parameter: its declared `__getitem__` (a state helper)
+            idx = self.expr(e.slice, ctx, pre, cond)
+            r = self.helper_call(e, self.g.helpers[f"{ms_py_}.__getitem__"], [idx], {}, ctx, pre, cond, False)
+            return r[1], r[2]
+        if isinstance(e.slice, ast.Slice) and self.text_cfg() is not None:
+            # (T4) `s[a:b]` / `s[a:]` / `s[:b]` on a str value: Python's slice (negative bounds from the end, clamped); no step
+            if e.slice.step is not None:
+                self.bad(e, "slice with a step")
+            stxt, sty = self.expr(e.value, ctx, pre, cond)
+            if sty != self.text_cfg()["str"]:
+                self.bad(e, f"slice of a value of type {sty}")
+            bounds = []
+            for b_ in (e.slice.lower, e.slice.upper):
+                if b_ is None:
+                    bounds.append("none")
+                    continue
+                btxt, bty = self.expr(b_, ctx, pre, cond)
+                if bty != "Int":
+                    self.bad(e, f"slice bound of type {bty}")
+                bounds.append(f"(some {self.paren(btxt)})")
+            return f"(Pyoda.Gen.pySlice {self.paren(stxt)} {bounds[0]} {bounds[1]})", sty
+        if isinstance(e.slice, ast.Slice):
+            self.bad(e, "slice")
+        if isinstance(e.value, (ast.Name, ast.Attribute)) or (self.text_cfg() is not None and isinstance(e.value, ast.Constant)):
             try:
                 saved_ = self.tmp
                 vtxt, vt = self.expr(e.value, ctx.copy(), [], cond=True)
@@ -3106,6 +3245,9 @@ class FnTranslator:
             if v is not None:
                 self.record_const(e, v)
                 return self.lit(v), ("Bool" if isinstance(v, bool) else "Int")
+            tcv = self.text_const_of(e)
+            if tcv is not None:
+                return tcv
             self.bad(e, f"attribute {ast.unparse(e)} is neither a bound attribute nor a class-level int constant")
         # a hand-mapped class-level value (e.g. `Duration.epsilon`): a helper without parameters
         if isinstance(base, ast.Name) and base.id not in ctx.vars and base.id not in ctx.constructing:
@@ -3242,6 +3384,16 @@ class FnTranslator:
                 vals.append((None, None))  # a literal collection on the right of `in`: handled element-wise below
                 continue
             vals.append(self.expr(x, ctx, pre, cond or i >= 2))
+        if self.text_cfg() is not None:
+            # (T4) `c == "-"`, `"0" <= c <= "9"` with c the one-character result of an index: the literal is that character
+            tc_ = self.text_cfg()
+            for i in range(len(vals)):
+                x = operands[i]
+                if vals[i][1] == tc_["str"] and isinstance(x, ast.Constant) and isinstance(x.value, str) \
+                        and any(0 <= j < len(vals) and vals[j][1] == tc_["chr"] for j in (i - 1, i + 1)):
+                    if len(x.value) != 1:
+                        self.bad(e, "comparison of a character with a literal that is not one character long")
+                    vals[i] = (self.char_literal(x.value), tc_["chr"])
         parts = []
         for i, op in enumerate(e.ops):
             (a, ta), (b, tb) = vals[i], vals[i + 1]
@@ -3446,6 +3598,37 @@ class FnTranslator:
                 if g_ is None and imps_.get("cast", (0, None, None))[1] == "typing":
                     return ("pure",) + self.expr(e.args[1], ctx, pre, cond)   # typing.cast returns its second argument
                 self.bad(e, "call of cast (not typing.cast)")
+            if f.id == "int" and len(e.args) == 1 and not e.keywords and self.text_cfg() is not None and "int" not in self.local_names:
+                # (T4) `int(a * math.pow(10.0, k))` with ints a, k — the ONLY float expression translated: the exact integer
+                # a * 10^k inside the range where the double computation is exact, "outside the modelled domain" elsewhere
+                a0 = e.args[0]
+                if isinstance(a0, ast.BinOp) and isinstance(a0.op, ast.Mult) and isinstance(a0.right, ast.Call) \
+                        and ast.unparse(a0.right.func) == "math.pow" and len(a0.right.args) == 2 and not a0.right.keywords \
+                        and isinstance(a0.right.args[0], ast.Constant) and type(a0.right.args[0].value) is float and a0.right.args[0].value == 10.0 \
+                        and any(isinstance(st_, ast.Import) and any(a_.name == "math" and a_.asname is None for a_ in st_.names) for st_ in self.g.src.module(self.file).body) \
+                        and "math" not in self.local_names:
+                    for x_ in (a0.left, a0.right.args[1]):
+                        if any(isinstance(n_, ast.Constant) and isinstance(n_.value, float) for n_ in ast.walk(x_)) or "math." in ast.unparse(x_) \
+                                or any(isinstance(n_, ast.BinOp) and isinstance(n_.op, ast.Div) for n_ in ast.walk(x_)):
+                            self.bad(e, "float arithmetic (only int(a * math.pow(10.0, k)) with ints a, k is translated)")
+                    a, ta = self.expr(a0.left, ctx, pre, cond)
+                    k, tk = self.expr(a0.right.args[1], ctx, pre, cond)
+                    if ta != "Int" or tk != "Int":
+                        self.bad(e, "int(a * math.pow(10.0, k)) with a or k not an int")
+                    return self.deliver(e, f"Pyoda.Gen.pyIntMulPow10 {self.paren(a)} {self.paren(k)}", "Int", True, pre, cond, want_raw)
+                if any(isinstance(n_, ast.Constant) and isinstance(n_.value, float) for n_ in ast.walk(a0)) or "math." in ast.unparse(a0):
+                    self.bad(e, "float arithmetic (only int(a * math.pow(10.0, k)) with ints a, k is translated)")
+                a, ta = self.expr(a0, ctx, pre, cond)
+                if ta == self.text_cfg()["chr"]:
+                    return self.deliver(e, f"Pyoda.Gen.pyIntChr {self.paren(a)}", "Int", True, pre, cond, want_raw)
+                if ta != "Int":
+                    self.bad(e, f"int() of a value of type {ta}")
+                return "pure", a, "Int"
+            if f.id == "str" and len(e.args) == 1 and not e.keywords and self.text_cfg() is not None and "str" not in self.local_names:
+                a, ta = self.expr(e.args[0], ctx, pre, cond)   # (T4) str(int): its decimal rendering
+                if ta != "Int":
+                    self.bad(e, f"str() of a value of type {ta}")
+                return "pure", f"(Pyoda.Gen.pyStrInt {self.paren(a)})", self.text_cfg()["str"]
             if f.id == "int" and len(e.args) == 1 and not e.keywords:
                 a, ta = self.expr(e.args[0], ctx, pre, cond)
                 if ta != "Int":
@@ -3591,6 +3774,8 @@ class FnTranslator:
         return args, kw
 
     def arg_or_str(self, a, ctx, pre, cond):
+        if self.text_cfg() is not None and ((isinstance(a, ast.Constant) and isinstance(a.value, str)) or isinstance(a, ast.JoinedStr)):
+            return self.expr(a, ctx, pre, cond)   # (T4) in a text group a string argument is a value
         if isinstance(a, ast.Constant) and isinstance(a.value, str):
             return ("", "Str")
         if isinstance(a, ast.Constant) and a.value is None:
